@@ -6,6 +6,11 @@ import ExaModel.Props.C17
 #print axioms Exa.Props.C17.reload_delta_new
 #print axioms Exa.Props.C17.deltaView_spec
 #print axioms Exa.Props.C17.reload_fail_atomic
+#print axioms Exa.Props.C17.reload_fail_empties_pending
+#print axioms Exa.Props.C17.reload_keeps_pending_empty
 #print axioms Exa.Props.C17.reload_fail_sends_nothing
 #print axioms Exa.Props.C17.reload_fail_api_works
 #print axioms Exa.Props.C17.reload_after_failure_ok
+#print axioms Exa.Props.C17.reload_failures_atomic
+#print axioms Exa.Props.C17.reload_removed_leaves_nothing
+#print axioms Exa.Props.C17.reload_readd_starts_empty
